@@ -126,7 +126,55 @@ def check_operands(model, rep, R='C06.operands'):
     rep.require(R, 14, 'UnitBase and the 13 kinds')
 
 
+def check_negation(model, rep, sx, R='C06.neg'):
+    """`a - b equals -(b - a)` needs the negation: -q returns the same kind with SI magnitude -S; it may raise ValueError only
+    where the result would violate the kind's own sign constraint - so a signed kind never refuses, a non-negative kind accepts
+    its null value (-0 is the null quantity again), a strictly positive kind always refuses"""
+    from sa.spec.si import SIGN
+    from sa.sx import make_cmp
+    ctx = sx.ctx
+    S = Rat.atom('S')
+    for kind in sorted(model.quantity_kinds()):
+        m = model.find_member(kind, '__neg__')
+        cons = f'{kind}.__neg__'
+        if m is None:
+            rep.violation(R, cons, 'no negation', '')
+            continue
+        sx.dispatch_quantity_ops = True
+        try:
+            outs = sx.run(m.node, m.module, m.cls, Q(kind, S, U(sym='a')))
+        except CannotDecide as e:
+            rep.cannot(R, cons, str(e), m.loc)
+            continue
+        finally:
+            sx.dispatch_quantity_ops = False
+        rep.inspect()
+        rets = [o for o in outs if o.kind == 'return']
+        raises = [o for o in outs if o.kind == 'raise']
+        ok, why = True, ''
+        for o in rets:
+            v = o.value
+            if not (isinstance(v, Q) and v.kind == kind and ctx.eq(v.term, -S)):
+                ok, why = False, f'returns `{sx.show(v)[:60]}`, specified a {kind} of SI magnitude -S'
+        want = SIGN.get(kind)
+        if want is None:
+            if raises:
+                ok, why = False, f'a signed kind refuses its negation with {raises[0].value} (line {raises[0].loc})'
+            if not rets:
+                ok, why = False, 'no path returns'
+        elif want == 'nonneg':
+            zero_ok = any(o.state.with_guard(make_cmp('==', S)) is not None for o in rets)
+            if not zero_ok:
+                ok, why = False, ('the null value is refused: -q must give the null quantity again (it is what `a - b = -(b - a)` needs when '
+                                  'a and b have the same magnitude)')
+        rep.decide(ok, R, cons, why, loc=m.loc)
+    rep.require(R, 13, 'one instance per kind')
+
+
 def check(model, rep):
+    # hidden state Python keeps outside the objects (not modelled by the evaluator): reported before anything else is evaluated
+    from checks.solver_common import package_lints as _package_lints
+    _package_lints(model, rep, 'C06.hidden-state', ('/units/',))
     rep.explain('C06: exhaustive static dispatch model over every (left, op, right) triple of the quantity kinds '
                 'found in gearpy/units plus plain numbers; each operator body is evaluated with symbolic SI '
                 'magnitudes and symbolic operand units; non-raising paths must return the dimensional-analysis '
@@ -239,6 +287,7 @@ def check(model, rep):
             rep.decide(t in accepted, 'C06.required', ' '.join(t), 'listed operation is not accepted')
     # conversions the operators rely on (other.to(self.unit), self.to('Nm'), private copies of sub-kinds):
     # the SI magnitude of an operation is right "whatever units the operands use" only if these hold too
+    check_negation(model, rep, sx)
     check_operands(model, rep)
     from checks.c05 import check_tables, check_to, check_mirror
     check_tables(model, rep, sx.tables, R='C06.conv.table')
